@@ -325,7 +325,7 @@ class Ctx:
             with npx.real_code():
                 ok, detail = replay(_ModelReader(model))
         except Exception as e:
-            self.harness_errors.append("%s: replay raised %s: %s" % (full, type(e).__name__, e))
+            self.inconclusive.append("%s: unconfirmed solver witness (replay raised %s: %s)" % (full, type(e).__name__, str(e)[:300]))
             rec["replay_error"] = traceback.format_exc()[-1500:]
             return verdict, model
         rec["replay"] = _jsonable(detail)
@@ -352,7 +352,7 @@ class Ctx:
                 with npx.real_code():
                     ok, detail = replay(_ModelReader(m2))
             except Exception as e:
-                self.harness_errors.append("%s: replay raised %s: %s" % (full, type(e).__name__, e))
+                self.inconclusive.append("%s: unconfirmed solver witness (replay raised %s: %s)" % (full, type(e).__name__, str(e)[:300]))
                 return verdict, model
             if ok:
                 wit = {k: _jsonable(_mv(m2, t)) for k, t in (witness_terms or {}).items()}
@@ -364,7 +364,8 @@ class Ctx:
             if is_known:
                 self.known_confirmed += 1
         else:
-            self.harness_errors.append("%s: solver witness did not reproduce on the real code: %s" % (full, json.dumps(_jsonable(detail))[:600]))
+            # the encoding (or a stub) is more permissive than the real code here: not a violation, not decided either
+            self.inconclusive.append("%s: unconfirmed solver witness (did not reproduce on the real code: %s)" % (full, json.dumps(_jsonable(detail))[:500]))
         return verdict, model
 
     def validate(self, name, sym_val, real_val, tol=1e-7):
@@ -497,6 +498,7 @@ class Pristine:
             p = os.fork()
             if p == 0:
                 try:
+                    IN_PRISTINE[0] = True
                     fn = getattr(importlib.import_module(modname), fname)
                     res = fn(*args)
                     w.send(("ok", res if raw else _jsonable_pair(res)))
@@ -546,9 +548,46 @@ PRISTINE = None
 
 def pristine_call(fn, *args):
     """run fn(*args) -> (bool, detail) on the real code in a process forked from the pristine worker state"""
-    if PRISTINE is None:
+    if PRISTINE is None or IN_PRISTINE[0]:
         return fn(*args)
     return PRISTINE.call(fn, *args)
+
+
+IN_PRISTINE = [False]
+
+
+def auto_pristine(module):
+    """Every module-level replay function of a check (replay* / _replay*) is run in a fork of the pristine worker
+    state: a replay on the real code never sees module-level state (caches, class attributes, RNG state) that the
+    symbolic run or an earlier replay left behind.  Arguments that cannot be pickled fall back to a direct call."""
+    import functools
+    import inspect
+    import pickle
+    for name, fn in list(vars(module).items()):
+        if not (inspect.isfunction(fn) and (name.startswith("replay") or name.startswith("_replay"))):
+            continue
+        if getattr(fn, "_auto_pristine", False) or fn.__module__ != module.__name__:
+            continue
+        impl_name = name + "__impl"
+        fn.__name__ = impl_name
+        fn.__qualname__ = impl_name
+        setattr(module, impl_name, fn)
+
+        def make(fn=fn, name=name):
+            @functools.wraps(fn)
+            def wrapper(*args, **kw):
+                if PRISTINE is None or IN_PRISTINE[0] or kw:
+                    return fn(*args, **kw)
+                try:
+                    pickle.dumps(args)
+                except Exception:
+                    return fn(*args)
+                return PRISTINE.eval(fn, *args)
+            wrapper.__name__ = name
+            wrapper.__qualname__ = name
+            wrapper._auto_pristine = True
+            return wrapper
+        setattr(module, name, make())
 
 
 def pristine_eval(fn, *args):
@@ -564,17 +603,38 @@ def _worker(fn, pid, name, tier, kwargs, conn):
         PRISTINE = Pristine()
     except Exception:
         PRISTINE = None
+    ctx = None
     try:
         St.reset(kwargs.pop("_mode", "REAL"))
         ctx = Ctx(pid, name, tier)
         fn(ctx, **kwargs)
         conn.send(("ok", ctx.result()))
     except BaseException as e:
-        conn.send(("error", "%s: %s\n%s" % (type(e).__name__, e, traceback.format_exc()[-3000:])))
+        msg = "%s: %s" % (type(e).__name__, e)
+        if ctx is not None and _encoding_limit(e):
+            # the encoding cannot follow this code shape: the rest of the case is not decided (what was proved stays)
+            ctx.inconclusive.append("%s: not encodable beyond this point (%s)" % (name, msg[:300]))
+            try:
+                conn.send(("ok", ctx.result()))
+            except Exception:
+                conn.send(("error", msg))
+        else:
+            conn.send(("error", "%s\n%s" % (msg, traceback.format_exc()[-3000:])))
     finally:
         if PRISTINE is not None:
             PRISTINE.close()
         conn.close()
+
+
+def _encoding_limit(e):
+    """exceptions that mean 'the symbolic encoding does not cover this construct' (not a failure of the code under test)"""
+    if isinstance(e, NotImplementedError):
+        return True
+    if isinstance(e, RuntimeError) and "symbolic branch outside an Explorer" in str(e):
+        return True
+    if isinstance(e, z3.Z3Exception):
+        return True
+    return False
 
 
 def run_cases(pid, tier, cases, jobs=None, case_timeout=600):
@@ -697,6 +757,7 @@ def main(pid, build_cases, files, replays=None, level="model_checking", notes=No
     if args.replay:
         return do_replay(pid, args.replay, replays or {})
     t0 = time.time()
+    auto_pristine(sys.modules[build_cases.__module__])
     cases = build_cases(args.tier)
     if args.only:
         cases = [c for c in cases if fnmatch.fnmatch(c[0], args.only)]
@@ -789,6 +850,8 @@ def main(pid, build_cases, files, replays=None, level="model_checking", notes=No
         print("INCONCLUSIVE: %s" % l)
     for l in lines:
         print(l)
+    if not herrors and inconcl and discharged == 0 and not new_viol and not known_hits:
+        herrors = ["nothing was decided: every obligation is inconclusive (the encoding does not cover this code)"]
     if herrors:
         for h in herrors[:30]:
             print("HARNESS-ERROR: %s" % h)
